@@ -214,3 +214,45 @@ class Sub:
 
     def __getattr__(self, k):
         return getattr(self._R, k)
+
+
+class Only:
+    """Run another property's whole check as a premise of this one, keeping only the obligations of the selected rules (re-filed under `to`); everything else
+    that check reports - its rule declarations, floors, other obligations, known findings - is dropped here (it is reported by that property's own check)."""
+    def __init__(self, R, rules, to, why=None):
+        self._R, self._rules, self._to, self._why = R, set(rules), to, why
+
+    def ob(self, rule, *a, **kw):
+        if rule not in self._rules:
+            return None
+        if self._why:
+            kw['why'] = self._why
+        return self._R.ob(self._to, *a, **kw)
+
+    def undecided(self, rule, *a, **kw):
+        if rule in self._rules:
+            return self._R.undecided(self._to, *a, **kw)
+        return None
+
+    def rule(self, *a, **kw):
+        return None
+
+    def require(self, cond, msg):
+        # an anchor the other check needs and does not find is that check's business; here the premise is simply not evaluated
+        if not cond:
+            raise _PremiseUnavailable(msg)
+
+    def __getattr__(self, k):
+        return getattr(self._R, k)
+
+
+class _PremiseUnavailable(Exception):
+    pass
+
+
+def run_premise(R, module, P, rules, to, why):
+    """evaluate the obligations `rules` of another property's check as obligations `to` of this one"""
+    try:
+        module.check(P, Only(R, rules, to, why))
+    except _PremiseUnavailable as e:
+        R.undecided(to, getattr(module, 'ID', '?'), None, f'premise {sorted(rules)} of {getattr(module, "ID", "?")}', str(e))
